@@ -1,4 +1,4 @@
 INIT Init
 NEXT Next
-INVARIANTS Completeness Binding WeakRejected AnyOnlyForTrailing Emit
+INVARIANTS Completeness Binding WeakRejected AcceptedExactly AnyOnlyForTrailing Emit
 CHECK_DEADLOCK FALSE
